@@ -1059,7 +1059,7 @@ func concCancelRun(scn int, shadow bool) (cls int, note string, left []concG, er
 		st.listFail = true
 	case 2:
 		st.listBlock = true
-	case 4:
+	case 4, 7:
 		st.storeFail = true
 	case 5:
 		st.storeBlock = true
@@ -1070,6 +1070,9 @@ func concCancelRun(scn int, shadow bool) (cls int, note string, left []concG, er
 		c.StorageRetryInterval = 30 * time.Second
 		c.StorageRetryForever = true
 		c.StorageRetryCount = 3
+		if scn == 7 { // an outage that outlasts storage_retry_count attempts, with storage_retry_forever: still retrying, still cancellable
+			c.StorageRetryInterval = time.Millisecond
+		}
 	}})
 	if err != nil {
 		return 0, "", nil, err
@@ -1121,6 +1124,11 @@ wait:
 				reached, note = true, w
 				break wait
 			}
+		case 7:
+			if st.stores.Load() >= 8 {
+				reached, note = true, "store retry loop, past storage_retry_count attempts"
+				break wait
+			}
 		}
 		time.Sleep(200 * time.Microsecond)
 	}
@@ -1146,7 +1154,7 @@ wait:
 	return cls, note, left, nil
 }
 
-var concScnNames = map[int]string{1: "boot-listing-fails", 2: "boot-listing-blocks", 3: "idle-sleep-empty-lmdb", 4: "store-retry-sleep", 5: "store-blocks", 6: "idle-sleep-after-store"}
+var concScnNames = map[int]string{7: "store-retry-forever-past-count", 1: "boot-listing-fails", 2: "boot-listing-blocks", 3: "idle-sleep-empty-lmdb", 4: "store-retry-sleep", 5: "store-blocks", 6: "idle-sleep-after-store"}
 
 // ---------------------------------------------------------------- the area
 
@@ -1179,6 +1187,25 @@ func areaConc(r *Rng, n int, dir string) (*AreaOut, error) {
 				out.Oracle = append(out.Oracle, OracleFailure{"C17", "goroutine-left-after-cancel",
 					fmt.Sprintf("%d goroutine(s) still in repository code 2 s after Sync returned (%s): %s", len(left), concScnNames[scn], left[0].Stack), desc})
 			}
+		}
+	}
+
+	// --- cancellation during an endless Store outage (oracle only: not one of the model's six blocking points)
+	for _, shadow := range []bool{false, true} {
+		cls, note, left, err := concCancelRun(7, shadow)
+		if err != nil {
+			return nil, fmt.Errorf("cancel scenario 7: %w", err)
+		}
+		out.OracleN++
+		hist(out.Hist, "cancel/"+concScnNames[7])
+		desc := fmt.Sprintf("cancel %s shadow=%v -> class %d (%s)", concScnNames[7], shadow, cls, note)
+		if cls == 4 {
+			out.Oracle = append(out.Oracle, OracleFailure{"C17", "cancel-not-returned",
+				fmt.Sprintf("storage_retry_forever, every Store failing, cancelled after more than storage_retry_count attempts: Sync did not return within 2 s (shadow=%v)", shadow), desc})
+		}
+		if len(left) > 0 {
+			out.Oracle = append(out.Oracle, OracleFailure{"C17", "goroutine-left-after-cancel",
+				fmt.Sprintf("%d goroutine(s) still in repository code 2 s after Sync returned (%s): %s", len(left), concScnNames[7], left[0].Stack), desc})
 		}
 	}
 
